@@ -133,7 +133,7 @@ func preBlock(fw *formatWriter, source []byte, cursor *commonmark.Cursor) (child
 		}
 		if curr.ChildCount() > 2 {
 			fw.s(` "`)
-			fw.s(curr.Child(2).Inline().Text(source))
+			fw.s(titleEscaper.Replace(curr.Child(2).Inline().Text(source)))
 			fw.s(`"`)
 		}
 		fw.s("\n")
@@ -291,13 +291,18 @@ func postInline(fw *formatWriter, source []byte, cursor *commonmark.Cursor) {
 			}
 			if title != nil {
 				fw.s(`"`)
-				fw.s(title.Text(source))
+				fw.s(titleEscaper.Replace(title.Text(source)))
 				fw.s(`"`)
 			}
 			fw.s(")")
 		}
 	}
 }
+
+// titleEscaper escapes the characters of a link title's text
+// that would end a title written in double quotes,
+// start an escape, or start a character reference.
+var titleEscaper = strings.NewReplacer(`\`, `\\`, `"`, `\"`, `&`, `\&`)
 
 // destinationEscaper escapes the characters of a normalized URI
 // that would end a link destination written without angle brackets.
